@@ -192,7 +192,11 @@ def check_vector(vec, seed, full):
         ncase += 1
         keys.append(label.split('|')[0])
         if isinstance(got, Exception):
-            msg = str(got).strip().splitlines()[-1][:160] if str(got).strip() else ''
+            # a FormulaEvalError ends with the cause and the "Eval: ..." line
+            lines = [ln for ln in str(got).strip().splitlines() if ln.strip()]
+            if len(lines) > 1 and lines[-1].startswith('Eval:'):
+                lines = [lines[-2], lines[-1]]
+            msg = ' | '.join(lines[-2:])[:200]
             bad(label, f'raised {type(got).__name__}: {msg}', extra)
             return False
         return True
